@@ -320,7 +320,7 @@ class Judge:
     def _one(self, traces: List[dict]) -> Tuple[List[Any], Any]:
         return validate_batch(TRACE_MOD, TRACE_CFG, traces, timeout=1500)
 
-    def judge(self, traces: List[dict], label: str, per_jvm: int = 20000, par: int = 5) -> None:
+    def judge(self, traces: List[dict], label: str, per_jvm: int = 10000, par: int = 5) -> None:
         """One TLC run costs ~10 s of start-up and then judges a few thousand observations per second,
         so batches are large; several JVMs run side by side when there is enough to judge."""
         traces = [t for t in traces if t["events"]]
@@ -362,8 +362,10 @@ class Judge:
         for pos, name in list(fails) + list(devs):
             ev = t["events"][pos - 1] if 1 <= pos <= len(t["events"]) else None
             size = len(t["cfg"]["table"]) * 1000 + (len(ev.get("raw", [])) if ev else 0)
+            before = [[G.seg_str(x["host"]), G.seg_str(x["raw"]), x["method"]]
+                      for x in t["events"][:max(pos - 1, 0)] if x["ev"] == "Query"] if ev and ev["ev"] == "Query" else []
             self.found.setdefault(name, []).append((size, {"table": t["cfg"]["table"], "event": ev, "src": t["src"],
-                                                           "label": label, "clause": name}))
+                                                           "label": label, "clause": name, "asked_before": before}))
 
     def report(self) -> None:
         ctx = self.ctx
@@ -427,7 +429,7 @@ def _describe(d: dict) -> str:
 
 def _detail(d: dict) -> dict:
     return {"table": d["table"], "event": d["event"], "src": d["src"], "clause": d["clause"],
-            "readable": _describe(d)}
+            "readable": _describe(d), "asked_before": d.get("asked_before", [])}
 
 
 # ---------------------------------------------------------------- grammar from the model
@@ -488,28 +490,93 @@ def driver_model(ctx: Ctx, drv: Driver, g: Grammar, judge: Judge, budget_tables:
                     chosen.append(strata[k].pop())
             rnd += 1
         ctx.log(f"stratified sample: {len(chosen)} of {len(g.tables)} tables over {len(keys)} shapes")
+    nq = replay_tables(ctx, drv, g, judge, [g.table(ids) for ids in chosen], src)
+    ctx.log(f"A: replayed {nq} observations of (table, query) states of {len(chosen)} tables")
+    ctx.extra["model_states_replayed"] = ctx.extra.get("model_states_replayed", 0) + nq
+    return chosen
+
+
+def replay_tables(ctx: Ctx, drv: Driver, g: Grammar, judge: Judge, tables: List[List[dict]], src: str) -> int:
+    """All model queries against ONE application object per table, in a seeded random order, followed by a
+    second round (every query answered 405 in the first round plus a random 15 %, reversed order): the
+    answers must not depend on what the router was asked before."""
     traces: List[dict] = []
     nq = 0
-    for ids in chosen:
-        table = g.table(ids)
+    for table in tables:
         b = drv.bind(table)
         if b.error:
-            traces.append({"cfg": {"table": table}, "src": "tlc-model", "events": [], "error": b.error})
             judge.found.setdefault("RegistrationRefused", []).append(
-                (len(table), {"table": table, "event": None, "src": "tlc-model", "label": b.error,
+                (len(table), {"table": table, "event": None, "src": src, "label": b.error,
                               "clause": "RegistrationRefused"}))
             continue
         qs = [(h, G.render_path(p), m) for (h, p, m) in g.queries(table)]
+        ctx.rng.shuffle(qs)
         evs = drv.queries(b, qs, "mocked")
+        again = [q for q, e in zip(qs, evs) if e["obs"]["t"] == "405" or ctx.rng.random() < 0.15]
+        again.reverse()
+        evs += drv.queries(b, again, "mocked")
         nq += len(evs)
-        traces.append({"cfg": {"table": table}, "src": src, "events": evs})
+        traces.append(mk_trace(table, src, evs))
         if len(traces) >= 200:
             judge.add(traces, "model-replay", 100000)
             traces = []
     judge.add(traces, "model-replay", 100000)
-    ctx.log(f"A: replayed {nq} (table, query) states of {len(chosen)} tables")
-    ctx.extra["model_states_replayed"] = ctx.extra.get("model_states_replayed", 0) + nq
-    return chosen
+    return nq
+
+
+def driver_three(ctx: Ctx, drv: Driver, g: Grammar, judge: Judge, n: int) -> None:
+    """A3: a slice of three-entry tables built from the model's entries: a valid two-entry table extended by
+    a third entry - half of the time the first template again with other methods (routes for one path that
+    are not registered back to back), else any entry of the same application or of the root."""
+    rng = ctx.rng
+    pairs = [t for t in g.tables if len(t) == 2]
+    tables: List[List[dict]] = []
+    guard = 0
+    while len(tables) < n and guard < 50 * n:
+        guard += 1
+        a, b = (g.entries[i - 1] for i in rng.choice(pairs))
+        same_app = (a["app"], a["domain"]) == (b["app"], b["domain"])
+        root_a = not a["app"] and not a["domain"]
+        if rng.random() < 0.5:
+            if not (same_app or root_a) or a["tpl"] == b["tpl"]:
+                continue
+            cands = [e for e in g.entries if (e["tpl"], e["app"], e["domain"]) == (a["tpl"], a["app"], a["domain"])
+                     and e["methods"] != a["methods"]]
+        else:
+            cands = [e for e in g.entries
+                     if ((e["app"], e["domain"]) == (b["app"], b["domain"]) or (not e["app"] and not e["domain"]))
+                     and not (e["tpl"] == b["tpl"] and (e["app"], e["domain"]) == (b["app"], b["domain"]))]
+        if cands:
+            tables.append([copy.deepcopy(a), copy.deepcopy(b), copy.deepcopy(rng.choice(cands))])
+    nq = replay_tables(ctx, drv, g, judge, tables, "tlc-entries-3")
+    ctx.log(f"A3: {nq} observations on {len(tables)} three-entry tables")
+    ctx.extra["three_entry_observations"] = nq
+
+
+def driver_hosts(ctx: Ctx, drv: Driver, g: Grammar, judge: Judge, n_tables: int, n_rules: int) -> None:
+    """E: Host header spellings (ports, case, near misses) against domain rules in several spellings."""
+    rng = ctx.rng
+    with_dom = [t for t in g.tables if any(g.entries[i - 1]["domain"] for i in t)]
+    rng.shuffle(with_dom)
+    traces = []
+    nq = 0
+    for ids in with_dom[:n_tables]:
+        table = g.table(ids)
+        old = G.domains_of(table)[0]
+        for rule in rng.sample(G.DOMAIN_RULES, n_rules):
+            tb = G.substitute_domain(table, old, rule)
+            b = drv.bind(tb)
+            if b.error:
+                raise MachineryError(f"cannot register {G.describe_table(tb)}: {b.error}")
+            paths = [G.render_path(p) for p in rng.sample(g.paths, 2)]
+            qs = [(h, p, m) for h in G.host_headers(rule, rng) for p in paths for m in ("GET", "POST")]
+            rng.shuffle(qs)
+            evs = drv.queries(b, qs, "parsed")
+            nq += len(evs)
+            traces.append(mk_trace(tb, "hosts", evs))
+    judge.add(traces, "hosts")
+    ctx.log(f"E: {nq} Host-header observations on {len(traces)} domain tables")
+    ctx.extra["host_header_observations"] = nq
 
 
 def driver_spellings(ctx: Ctx, drv: Driver, g: Grammar, judge: Judge, tables: List[Tuple[int, ...]], per: int) -> None:
@@ -543,7 +610,7 @@ def driver_spellings(ctx: Ctx, drv: Driver, g: Grammar, judge: Judge, tables: Li
                     qs.append((rng.choice(hosts), G.spell_path(c, style, rng), rng.choice(g.methods + ["GET"])))
             evs = drv.queries(b, qs, "parsed")
             nq += len(evs)
-            traces.append({"cfg": {"table": tb}, "src": "spelling-" + kind, "events": evs})
+            traces.append(mk_trace(tb, "spelling-" + kind, evs))
     judge.add(traces, "spellings")
     ctx.log(f"B: {nq} odd-spelling / renamed-alphabet queries on {len(traces)} tables "
             f"({drv.reqs.parser_errors} targets refused by the parser)")
@@ -576,7 +643,7 @@ def driver_urlfor(ctx: Ctx, drv: Driver, g: Grammar, judge: Judge) -> None:
                 if same != vals:
                     evs.append(drv.url_for(b, 1, same))
             n += len(evs)
-            traces.append({"cfg": {"table": table}, "src": "url_for", "events": evs})
+            traces.append(mk_trace(table, "url_for", evs))
     judge.add(traces, "url_for")
     ctx.log(f"C: {n} url_for round trips over {len(tpls)} dynamic templates")
     ctx.extra["url_for_round_trips"] = n
@@ -603,7 +670,7 @@ def driver_redirect(ctx: Ctx, drv: Driver, g: Grammar, judge: Judge, tables: Lis
                 continue
             evs = [e for e in (drv.redirect(b, opts, t) for t in targets) if e is not None]
             n += len(evs)
-            traces.append({"cfg": {"table": table}, "src": "redirect", "events": evs})
+            traces.append(mk_trace(table, "redirect", evs))
     judge.add(traces, "redirect")
     redirects = sum(1 for t in traces for e in t["events"] if e["hasloc"])
     ctx.log(f"D: {n} middleware runs, {redirects} redirects")
@@ -640,10 +707,12 @@ def run(ctx: Ctx) -> None:
         fut = ex.submit(run_tlc, "UrlDispatchMC", write_cfg(2, rich, False), workers=16,
                         timeout=ctx.pick(900, 3000), deadlock=False)
         try:
-            chosen = driver_model(ctx, drv, g, judge, ctx.pick(250, None), "tlc-model")
+            chosen = driver_model(ctx, drv, g, judge, ctx.pick(140, None), "tlc-model")
+            driver_three(ctx, drv, g, judge, ctx.pick(30, 1500))
             sub = list(chosen)
             ctx.rng.shuffle(sub)
-            driver_spellings(ctx, drv, g, judge, sub[:ctx.pick(100, 3000)], ctx.pick(40, 60))
+            driver_spellings(ctx, drv, g, judge, sub[:ctx.pick(90, 3000)], ctx.pick(40, 60))
+            driver_hosts(ctx, drv, g, judge, ctx.pick(10, 200), ctx.pick(2, 4))
             driver_urlfor(ctx, drv, g, judge)
             driver_redirect(ctx, drv, g, judge, sub[:ctx.pick(8, 300)])
             judge.flush()
@@ -692,7 +761,7 @@ def selftest(ctx: Ctx) -> int:
     b = drv.bind(table)
     evs = drv.queries(b, [(OTHER_HOST, "/a/b", "GET"), (OTHER_HOST, "/a/b", "DELETE"), (OTHER_HOST, "/a/%62", "POST"),
                           (OTHER_HOST, "/b/a", "GET")], "parsed")
-    good = {"cfg": {"table": table}, "src": "selftest", "events": evs}
+    good = mk_trace(table, "selftest", evs)
     bad1 = copy.deepcopy(good)
     bad1["events"][0]["obs"]["i"] = 3                       # wrong handler
     bad2 = copy.deepcopy(good)
@@ -702,17 +771,17 @@ def selftest(ctx: Ctx) -> int:
     bad4 = copy.deepcopy(good)
     bad4["events"][3]["obs"] = {"t": "405", "i": 0, "vars": [], "allowed": ["GET"]}   # 405 where nothing matches
     bad5 = copy.deepcopy(good)
-    bad5["events"] = [{"ev": "Redirect", "raw": G.cps("//evil"), "host": OTHER_HOST, "method": "GET", "ap": True,
+    bad5["events"] = [{"ev": "Redirect", "raw": G.cps("//evil"), "host": G.cps(OTHER_HOST), "method": "GET", "ap": True,
                        "rm": False, "mg": True, "status": 308, "hasloc": True, "loc": G.cps(loc)}
                       for loc in ("//evil", "/\\evil", "/a/b")]
     bad6 = copy.deepcopy(good)
     bad6["events"] = [{"ev": "UrlFor", "idx": 1, "vals": [["x", G.cps("a b")]], "raw": G.cps("/a/a%2520b"),
-                       "host": OTHER_HOST, "method": "GET",
+                       "host": G.cps(OTHER_HOST), "method": "GET",
                        "obs": {"t": "match", "i": 1, "vars": [["x", G.cps("a%20b")]], "allowed": []}}]
     vs, _ = validate_batch(TRACE_MOD, TRACE_CFG, [good, bad1, bad2, bad3, bad4, bad5, bad6])
     got = [(v.ok, v.clause) for v in vs]
     print("trace verdicts:", got)
-    want = [(True, ""), (False, "WrongHandler"), (False, "NotAllowedSetIncomplete"), (False, "WrongMatchInfo"),
+    want = [(True, ""), (False, "WrongHandler"), (False, "NotAllowedSetWrong"), (False, "WrongMatchInfo"),
             (False, "ResolveMismatch"), (False, "RedirectOffSite"), (False, "UrlForEncoding")]
     if got != want:
         print("  expected:", want)
@@ -753,10 +822,12 @@ def replay(ctx: Ctx, path: str) -> int:
             ev = drv.url_for(drv.bind(table), e["idx"], {k: G.seg_str(v) for k, v in e["vals"]})
         else:
             how = "mocked" if str(d.get("src", "")).startswith("tlc-model") else "parsed"
-            ev = drv.queries(drv.bind(table), [(e["host"], G.seg_str(e["raw"]), e["method"])], how)[0]
+            # same application object, same questions in the same order as in the failing execution
+            qs = [tuple(x) for x in d.get("asked_before", [])] + [(G.seg_str(e["host"]), G.seg_str(e["raw"]), e["method"])]
+            ev = drv.queries(drv.bind(table), qs, how)[-1]
     finally:
         drv.close()
-    vs, _ = validate_batch(TRACE_MOD, TRACE_CFG, [{"cfg": {"table": table}, "src": "replay", "events": [ev]}])
+    vs, _ = validate_batch(TRACE_MOD, TRACE_CFG, [mk_trace(table, "replay", [ev])])
     v = vs[0]
     print("replay:", _describe({"table": table, "event": ev}))
     print(f"replay: ok={v.ok} clause={v.clause!r}")
